@@ -33,7 +33,7 @@ SIDE_FILES = ("report.json", "info.tsv", "info.tsv.gz", "rest.txt", "wild.txt", 
 def generate(rng, tier):
     return gen.gen_case(rng, {
         "p_demux": 1.0, "p_combinatorial": 0.4, "p_paired": 0.55, "require_named": True, "force_suffix": " dm={name}",
-        "p_rename": 0.0, "p_untrimmed_opts": 0.5, "p_filters": 0.35, "p_redirect": 0.3, "p_decoy_adapter": 0.5, "p_unknown_name": 0.12, "p_duplicate_adapter": 0.1, "p_same_name": 0.1,
+        "p_rename": 0.0, "p_untrimmed_opts": 0.5, "p_filters": 0.35, "p_redirect": 0.3, "p_decoy_adapter": 0.5, "p_unknown_name": 0.12, "p_duplicate_adapter": 0.1, "p_same_name": 0.1, "p_case_name": 0.08,
         "p_info": 0.1, "p_pair_adapters": 0.1, "p_revcomp": 0.08, "p_minimal_report": 0.05, "times": (1, 3),
     })
 
@@ -153,7 +153,7 @@ def evaluate(case, ctx):
     if hv:
         return viols + hv
     if par.exit != 0:
-        if C.is_buffer_too_small(par):
+        if C.is_buffer_too_small(par, case):
             raise engine.Discard("buffer-too-small")
         viols.append(C.V("exit-status", f"par: exit status {par.exit}; stderr tail {par.stderr[-300:]!r}"))
     else:
@@ -183,7 +183,7 @@ def main(seed, tier, args):
     import sys
 
     n = args.cases or (3000 if tier == "quick" else 60000)
-    budget = args.budget or (100 if tier == "quick" else 900)
+    budget = args.budget or (150 if tier == "quick" else 900)
     rc, ev = engine.run_batch(sys.modules[__name__], seed, tier, n, budget)
     c = ev["coverage"]
     print(f"C15 {tier}: {c['evaluations']} cases judged, {c['distinct_nontrivial']} distinct non-trivial, discards {c['discards_by_reason']}, wall {ev['wall_s']}s")
